@@ -1,7 +1,260 @@
-// Package c17 interprets the C17 op language against the real packages (stub).
+// Package c17 interprets the C17 op language against the real core/log/metric package: a writer and
+// any number of searchers on a fresh temporary directory per case (removed on Reset).
 package c17
 
-import "verifharness/internal/vh"
+import (
+	"fmt"
+	"io"
+	"os"
+	"path/filepath"
+	"sort"
+	"strconv"
+	"strings"
+	"time"
 
-// New returns the interpreter for C17.
-func New() vh.Interp { return nil }
+	"github.com/alibaba/sentinel-golang/core/base"
+	"github.com/alibaba/sentinel-golang/core/config"
+	"github.com/alibaba/sentinel-golang/core/log/metric"
+	"verifharness/internal/vh"
+)
+
+const app = "app"
+
+type Interp struct {
+	clk       *vh.Clock
+	dir       string
+	w         metric.MetricLogWriter
+	closed    bool
+	lastData  string
+	origData  []byte
+	origIdx   []byte
+	searchers map[string]metric.MetricSearcher
+}
+
+func New() vh.Interp {
+	time.Local = time.UTC
+	vh.Silence()
+	c := vh.NewClock(1_900_000_000_000)
+	sweep()
+	return &Interp{clk: c, searchers: map[string]metric.MetricSearcher{}}
+}
+
+// sweep removes directories left behind by harness processes that are no longer alive (a process
+// that is killed, or whose last case has no log.end, cannot clean up after itself).
+func sweep() {
+	ds, _ := filepath.Glob(filepath.Join(os.TempDir(), "verif-c17-*"))
+	for _, d := range ds {
+		parts := strings.Split(filepath.Base(d), "-")
+		if len(parts) < 4 {
+			continue
+		}
+		pid, err := strconv.Atoi(parts[2])
+		if err != nil || pid == os.Getpid() {
+			continue
+		}
+		if _, err := os.Stat(fmt.Sprintf("/proc/%d", pid)); err != nil {
+			_ = os.RemoveAll(d)
+		}
+	}
+}
+
+func (it *Interp) closeWriter() {
+	if it.w != nil {
+		if c, ok := it.w.(io.Closer); ok {
+			_ = c.Close()
+		}
+	}
+}
+
+func (it *Interp) drop() {
+	it.closeWriter()
+	it.w = nil
+	if it.dir != "" {
+		_ = os.RemoveAll(it.dir)
+		it.dir = ""
+	}
+	it.closed = false
+	it.lastData, it.origData, it.origIdx = "", nil, nil
+	it.searchers = map[string]metric.MetricSearcher{}
+}
+
+func (it *Interp) Reset() { it.drop() }
+
+func parseItem(tok string) *base.MetricItem {
+	p := strings.Split(tok, ":")
+	if len(p) != 9 {
+		panic("bad item " + tok)
+	}
+	return &base.MetricItem{
+		Resource: p[0], PassQps: vh.U(p[1]), BlockQps: vh.U(p[2]), CompleteQps: vh.U(p[3]), ErrorQps: vh.U(p[4]),
+		AvgRt: vh.U(p[5]), OccupiedPassQps: vh.U(p[6]), Concurrency: uint32(vh.U(p[7])), Classification: int32(vh.I(p[8])),
+	}
+}
+
+func showItems(items []*base.MetricItem, err error) string {
+	if err != nil {
+		return "err"
+	}
+	xs := make([]string, 0, len(items))
+	for _, m := range items {
+		xs = append(xs, fmt.Sprintf("%d:%s:%d:%d:%d:%d:%d:%d:%d:%d", m.Timestamp, m.Resource, m.PassQps, m.BlockQps,
+			m.CompleteQps, m.ErrorQps, m.AvgRt, m.OccupiedPassQps, m.Concurrency, m.Classification))
+	}
+	return vh.List(xs)
+}
+
+// lastDataFile: the newest data file (date, then roll number), i.e. the one the writer appends to.
+func (it *Interp) lastDataFile() string {
+	es, _ := os.ReadDir(it.dir)
+	type ent struct {
+		name, date string
+		seq        int
+	}
+	var xs []ent
+	prefix := metric.FormMetricFileName(app, false) + "."
+	for _, e := range es {
+		n := e.Name()
+		if strings.HasSuffix(n, ".idx") || !strings.HasPrefix(n, prefix) {
+			continue
+		}
+		parts := strings.Split(n[len(prefix):], ".")
+		seq := 0
+		if len(parts) > 1 {
+			seq, _ = strconv.Atoi(parts[1])
+		}
+		xs = append(xs, ent{n, parts[0], seq})
+	}
+	sort.Slice(xs, func(i, j int) bool {
+		if xs[i].date != xs[j].date {
+			return xs[i].date < xs[j].date
+		}
+		return xs[i].seq < xs[j].seq
+	})
+	if len(xs) == 0 {
+		return ""
+	}
+	return filepath.Join(it.dir, xs[len(xs)-1].name)
+}
+
+func (it *Interp) searcher(id string) metric.MetricSearcher {
+	s, ok := it.searchers[id]
+	if !ok {
+		var err error
+		s, err = metric.NewDefaultMetricSearcher(it.dir, metric.FormMetricFileName(app, false))
+		if err != nil {
+			panic(err)
+		}
+		it.searchers[id] = s
+	}
+	return s
+}
+
+func cutTo(path string, orig []byte, k uint64) {
+	if k > uint64(len(orig)) {
+		k = uint64(len(orig))
+	}
+	if err := os.WriteFile(path, orig[:k], 0o644); err != nil {
+		panic(err)
+	}
+}
+
+func (it *Interp) Step(t []string, op string) string {
+	switch t[0] {
+	case "clock":
+		it.clk.SetMs(vh.U(t[1]))
+		return ""
+	case "log.new":
+		maxSize, maxFiles := vh.U(t[1]), vh.U(t[2])
+		it.drop()
+		dir, err := os.MkdirTemp("", fmt.Sprintf("verif-c17-%d-", os.Getpid()))
+		if err != nil {
+			panic(err)
+		}
+		it.dir = dir
+		cfg := config.NewDefaultConfig()
+		cfg.Sentinel.Log.Dir = dir
+		cfg.Sentinel.App.Name = app
+		config.ResetGlobalConfig(cfg)
+		w, err := metric.NewDefaultMetricLogWriterOfApp(maxSize, uint32(maxFiles), app)
+		if err != nil {
+			return "err"
+		}
+		it.w = w
+		return "ok"
+	case "log.end":
+		it.drop()
+		return ""
+	case "log.write":
+		if it.w == nil {
+			return "bad-op"
+		}
+		if it.closed {
+			return "closed" // the writer died with the cut
+		}
+		ts, n := vh.U(t[1]), int(vh.U(t[2]))
+		if n != len(t)-3 {
+			return "bad-op"
+		}
+		items := make([]*base.MetricItem, 0, n)
+		for _, tok := range t[3:] {
+			items = append(items, parseItem(tok))
+		}
+		if err := it.w.Write(ts, items); err != nil {
+			return "err"
+		}
+		return ""
+	case "log.cut":
+		if it.w == nil {
+			return "bad-op"
+		}
+		if !it.closed {
+			it.closeWriter()
+			it.closed = true
+			it.lastData = it.lastDataFile()
+			it.origData, _ = os.ReadFile(it.lastData)
+			it.origIdx, _ = os.ReadFile(it.lastData + ".idx")
+		}
+		k := vh.U(t[2])
+		switch t[1] {
+		case "data":
+			cutTo(it.lastData, it.origData, k)
+		case "idx":
+			cutTo(it.lastData+".idx", it.origIdx, k)
+		default:
+			return "bad-op"
+		}
+		return ""
+	case "log.files":
+		if it.w == nil {
+			return "bad-op"
+		}
+		es, err := os.ReadDir(it.dir)
+		if err != nil {
+			panic(err)
+		}
+		xs := []string{}
+		for _, e := range es {
+			st, err := e.Info()
+			if err != nil {
+				panic(err)
+			}
+			xs = append(xs, fmt.Sprintf("%s:%d", e.Name(), st.Size()))
+		}
+		return vh.List(xs)
+	case "log.find":
+		if it.w == nil {
+			return "bad-op"
+		}
+		res := t[4]
+		if res == "*" {
+			res = ""
+		}
+		return showItems(it.searcher(t[1]).FindByTimeAndResource(vh.U(t[2]), vh.U(t[3]), res))
+	case "log.from":
+		if it.w == nil {
+			return "bad-op"
+		}
+		return showItems(it.searcher(t[1]).FindFromTimeWithMaxLines(vh.U(t[2]), uint32(vh.U(t[3]))))
+	}
+	return "bad-op"
+}
